@@ -67,6 +67,7 @@ EXTRA_HEAD = {
  1: "From EPD Require Import Hal HalSat HalProofs Ctl.Ctl Pure.Graphics Pure.GraphicsProofs Proof.Pixel.\n",
  5: "From EPD Require Import Hal HalSat HalProofs.\n",
  11: "From EPD Require Import Hal HalSat HalProofs.\n",
+ 8: "From EPD Require Import Ctl.Ctl Spec.Recover Proof.Wake.\n",
  9: "From EPD Require Import Ctl.Ctl Spec.Oracle Proof.Book.\n",
  12: "From EPD Require Import Hal Ctl.Ctl Spec.Checks Spec.Oracle Proof.Book.\n",
  17: "From EPD Require Import Ctl.Ctl Spec.Oracle Proof.Book.\n",
@@ -148,6 +149,21 @@ Proof. exact if_reset_exact. Qed.
 Theorem C11_no_traffic_while_reset_low : forall cfg rho t d w,
   match expand cfg rho t d w with (_, _, _, evs) => rst_scan false evs = (true, false) end.
 Proof. exact expand_rst. Qed.
+''',
+ 8: '''
+(** wake_up forgets whatever state the controller was in: after EVERY history, on every configuration,
+    the transport calls of wake_up begin with a hardware reset (busy polls / delays may precede it), and the
+    controller state it leaves is the same from EVERY prior controller state [c1], [c2] - deep sleep, a
+    half-received frame, a shrunken window - i.e. a function of the driver's fields alone.  Together with
+    the register comparison above (which compares with construction) this is "wake-up re-establishes the
+    configuration exactly as construction does". *)
+Theorem C08_wake_up_forgets_controller_state : forall c, In c cfgs ->
+  exists s0, fst (p_new (fst c) (spec_of (snd c))) = Some s0 /\\
+  forall h, valid_history (snd c) h ->
+  exists ic, wake_calls (fst c) (snd c) (v_d (p_run (fst c) (spec_of (snd c)) s0 h)) = Some ic /\\
+             starts_with_reset ic = true /\\
+             forall cp c1 c2, fst (ccall cp c1 ic) = fst (ccall cp c2 ic).
+Proof. exact wake_up_forgets. Qed.
 ''',
  9: '''
 (** "The driver's own bookkeeping of the panel's power state never diverges from the controller's": the
